@@ -66,7 +66,7 @@ func failing(repo string, overlay map[string][]byte, prop string) ([]string, err
 				ctx.Undecided(prop+".panic", "analyser-panic", "the analyser must not panic", nil, nil, fmt.Sprint(e))
 			}
 		}()
-		r.Run(ctx)
+		rules.Execute(r, ctx)
 	}()
 	var keys []string
 	for _, o := range ctx.Obls {
